@@ -17,6 +17,7 @@ pub mod c31;
 pub mod c32;
 pub mod c35;
 pub mod c36;
+pub mod c37;
 pub mod c38;
 pub mod c39;
 pub mod c40;
@@ -51,6 +52,7 @@ pub fn get(id: &str) -> Option<&'static dyn Property> {
         "C32" => Some(&c32::C32),
         "C35" => Some(&c35::C35),
         "C36" => Some(&c36::C36),
+        "C37" => Some(&c37::C37),
         "C38" => Some(&c38::C38),
         "C39" => Some(&c39::C39),
         "C40" => Some(&c40::C40),
@@ -58,4 +60,4 @@ pub fn get(id: &str) -> Option<&'static dyn Property> {
     }
 }
 
-pub const ALL_IDS: &[&str] = &["C01", "C02", "C03", "C07", "C08", "C09", "C10", "C11", "C12", "C13", "C15", "C17", "C21", "C22", "C23", "C24", "C26", "C27", "C28", "C29", "C31", "C32", "C35", "C36", "C38", "C39", "C40"];
+pub const ALL_IDS: &[&str] = &["C01", "C02", "C03", "C07", "C08", "C09", "C10", "C11", "C12", "C13", "C15", "C17", "C21", "C22", "C23", "C24", "C26", "C27", "C28", "C29", "C31", "C32", "C35", "C36", "C37", "C38", "C39", "C40"];
